@@ -220,7 +220,7 @@ func (a *Analysis) ruleGates() {
 					subj[c.Value()] = true
 				}
 			}
-			res := AnalyseGate(a.NME, subj, a.NME.Blocks[0], ZRange(0, maxLen), bits, a.gateTables)
+			res := AnalyseGate(a.NME, subj, a.NME.Blocks[0], ZRange(0, maxLen), bits, a.gateTables, a.isModuleFunc)
 			a.Gate1 = a.checkGate(gateSpec{rule: "G1", fn: a.NME, what: "len(" + param.Name() + ")", spec: specEntLens(), sentinel: "ErrEntropyLen", strResult: true}, res)
 		}
 	}
@@ -235,7 +235,7 @@ func (a *Analysis) ruleGates() {
 		if param == nil {
 			a.R.Unk("G2", "NewMnemonic/subject", a.P.Pos(a.NM.Pos()), "", "no int parameter")
 		} else {
-			res := AnalyseGate(a.NM, map[ssa.Value]bool{param: true}, a.NM.Blocks[0], ZRange(minInt, maxInt), bits, a.gateTables)
+			res := AnalyseGate(a.NM, map[ssa.Value]bool{param: true}, a.NM.Blocks[0], ZRange(minInt, maxInt), bits, a.gateTables, a.isModuleFunc)
 			a.Gate2 = a.checkGate(gateSpec{rule: "G2", fn: a.NM, what: param.Name(), spec: specWordCounts(), sentinel: "ErrWordLen", allowLateFail: true, strResult: true}, res)
 		}
 	}
@@ -265,7 +265,7 @@ func (a *Analysis) ruleGates() {
 			if calleeName(tok) == "strings.Split" {
 				lo = 1
 			}
-			res := AnalyseGate(a.CM, subj, tok.Block(), ZRange(lo, maxLen), bits, a.gateTables)
+			res := AnalyseGate(a.CM, subj, tok.Block(), ZRange(lo, maxLen), bits, a.gateTables, a.isModuleFunc)
 			a.Gate3 = a.checkGate(gateSpec{rule: "G3", fn: a.CM, what: "len(tokens)", spec: specWordCounts(), sentinel: "ErrWordLen", allowLateFail: true}, res)
 		}
 	}
@@ -516,4 +516,9 @@ func (a *Analysis) gateTables(gl *ssa.Global) *gtable {
 		}
 	}
 	return nil
+}
+
+
+func (a *Analysis) isModuleFunc(f *ssa.Function) bool {
+	return f != nil && f.Pkg != nil && a.P.InModule(f.Pkg)
 }
